@@ -115,7 +115,8 @@ func newSystem(c config) (*system, error) {
 		sys.interval = hk.ReportInterval
 	}
 	for k := range sys.lSeq {
-		sys.lSeq[k], sys.rSeq[k] = 1000, 2000
+		// the third packet read on a stream carries sequence number 65535, the following ones have wrapped
+		sys.lSeq[k], sys.rSeq[k] = 1000, 65529
 	}
 	return sys, nil
 }
